@@ -4,6 +4,7 @@ package main
 
 import (
 	"fmt"
+	"go/token"
 	"go/types"
 	"strings"
 
@@ -69,6 +70,8 @@ func (f *Frame) callCommon(c *ssa.CallCommon, in ssa.Instruction, st *PState, rt
 		if v.Clos != nil {
 			callee = v.Clos.Fn.(*ssa.Function)
 			bindings = v.Clos.Bindings
+		} else if ex.iterSelf != nil && tracesToParam(c.Value, ex.iterSelf.param, 0) {
+			return f.selfYield(args, in, st, rt)
 		}
 	}
 	if callee == nil {
@@ -1483,9 +1486,23 @@ func (f *Frame) iterateCall(ct *Contract, sig *types.Signature, args []Val, vars
 	for _, y := range ct.Yields {
 		ex.vc.AssumeIf(body.reach, ye.boolE(y.Expr))
 	}
+	if ex.iterSelf != nil {
+		ex.iterSelf.stops = nil
+	}
 	post, res, ok := f.runCallback(cb, ys, body)
 	if !ok {
 		return Val{}, false
+	}
+	if ex.iterSelf != nil && ex.dryDepth == 0 {
+		// the function under verification is an iterator built on this one: its wrapper may stop the inner iteration
+		// only when the client's callback asked to stop
+		tag := ex.iterSelf.ct.IterTag
+		if tag == "" {
+			tag = "iter"
+		}
+		ex.vc.AddObligation(&Obligation{Name: fmt.Sprintf("%s/%s/iter-stop[%s]%s", tag, ex.oblPrefix, key, f.inlineSuffix()), Tag: tag, Kind: "iter-stop", Func: ex.top.String(),
+			Goal: implies(post.reach, implies(res.T, or(ex.iterSelf.stops...))), Pos: f.pos(in),
+			Desc: "the iteration stops early only when the caller's callback returned true (no element is silently cut off)"})
 	}
 	ep := mkInvEnv(post, fmt.Sprintf("(+ %s 1)", n), res.T)
 	for _, inv := range invs {
@@ -1733,4 +1750,105 @@ func (ex *Exec) copyOut(st *PState, lv *LValue, ref string, t types.Type) {
 	if st.reach != "false" {
 		ex.vc.AssumeIf(st.reach, eq(ex.loadLV(st, lv), v))
 	}
+}
+
+// ---------------------------------------------------------------- an iterator whose own body is verified
+
+type iterSelf struct {
+	param *ssa.Parameter
+	ct    *Contract
+	vars  map[string]Val
+	stops []string
+	n     int
+}
+
+// tracesToParam: v is the callback parameter p itself, or a load from a cell (local variable or captured variable)
+// that only ever holds p.
+func tracesToParam(v ssa.Value, p *ssa.Parameter, depth int) bool {
+	if depth > 5 {
+		return false
+	}
+	switch x := v.(type) {
+	case *ssa.Parameter:
+		return x == p
+	case *ssa.UnOp:
+		if x.Op != token.MUL {
+			return false
+		}
+		return cellHoldsParam(x.X, p, depth+1)
+	}
+	return false
+}
+
+func cellHoldsParam(cell ssa.Value, p *ssa.Parameter, depth int) bool {
+	if depth > 5 {
+		return false
+	}
+	switch c := cell.(type) {
+	case *ssa.Alloc:
+		if c.Referrers() == nil {
+			return false
+		}
+		n := 0
+		for _, r := range *c.Referrers() {
+			if st, ok := r.(*ssa.Store); ok && st.Addr == c {
+				if !tracesToParam(st.Val, p, depth+1) {
+					return false
+				}
+				n++
+			}
+		}
+		return n > 0
+	case *ssa.FreeVar:
+		fn := c.Parent()
+		par := fn.Parent()
+		if par == nil {
+			return false
+		}
+		idx := -1
+		for k, fv := range fn.FreeVars {
+			if fv == c {
+				idx = k
+			}
+		}
+		for _, b := range par.Blocks {
+			for _, in := range b.Instrs {
+				if mc, ok := in.(*ssa.MakeClosure); ok && mc.Fn == fn && idx >= 0 && idx < len(mc.Bindings) {
+					return cellHoldsParam(mc.Bindings[idx], p, depth+1)
+				}
+			}
+		}
+	}
+	return false
+}
+
+// selfYield: the body of the iterator under verification hands an element to the caller's callback. Each `yields`
+// clause is an obligation here; the callback itself is the caller's business (modelled at the caller's call site as
+// the loop body), here it only returns an arbitrary stop flag.
+func (f *Frame) selfYield(args []Val, in ssa.Instruction, st *PState, rt types.Type) Val {
+	ex := f.ex
+	is := ex.iterSelf
+	vars := map[string]Val{}
+	for k, v := range is.vars {
+		vars[k] = v
+	}
+	for k, a := range f.plainArgs(args, st) {
+		vars[fmt.Sprintf("y%d", k)] = a
+	}
+	env := &SpecEnv{ex: ex, vars: vars, stypes: map[string]*SType{}, cur: st, old: ex.entry, pkg: ex.P.typesPkg(is.ct.Pkg), expand: ex.expands, what: "yields of " + is.ct.Target}
+	if ex.dryDepth == 0 {
+		for _, y := range is.ct.Yields {
+			tag := y.Tag
+			if tag == "" {
+				tag = "yield"
+			}
+			ex.vc.AddObligation(&Obligation{Name: fmt.Sprintf("%s/%s/yield%s", tag, ex.oblPrefix, f.inlineSuffix()), Tag: tag, Kind: "yield", Func: ex.top.String(),
+				Goal: implies(st.reach, env.boolE(y.Expr)), Pos: f.pos(in), Desc: "every element handed to the callback satisfies: " + y.Src})
+		}
+	}
+	res := ex.havocVal("cbres", rt)
+	if res.S == SBool {
+		is.stops = append(is.stops, and(st.reach, res.T))
+	}
+	return res
 }
